@@ -5,6 +5,7 @@ import (
 	"fmt"
 	"os"
 	"sort"
+	"strconv"
 	"strings"
 
 	"verif/mc/enum"
@@ -40,6 +41,8 @@ type Stats struct {
 }
 
 const maxSeen = 6_000_000
+
+var longTrace = func() int { n, _ := strconv.Atoi(os.Getenv("VERIF_TRACE_LONG")); return n }()
 
 type explorer struct {
 	cfg   Config
@@ -285,6 +288,19 @@ func (e *explorer) explore(prefix []int) {
 	}
 	if e.cfg.Outcome != nil {
 		e.st.Outcomes[e.cfg.Outcome(x)]++
+	}
+	if longTrace > 0 && x.steps > longTrace {
+		// development aid (VERIF_TRACE_LONG=n): show the tail of the first execution longer than n steps
+		longTrace = 0
+		y := Run(x.Choices(), e.cfg.MaxSteps, true, e.cfg.Body)
+		fmt.Printf("LONG EXECUTION %s steps=%d choices=%v status=%q\n", e.cfg.Name, y.steps, x.Choices(), y.Status)
+		lo := len(y.Trace) - 260
+		if lo < 0 {
+			lo = 0
+		}
+		for _, l := range y.Trace[lo:] {
+			fmt.Println("   " + l)
+		}
 	}
 	e.judge(x, false)
 	e.r.Sample(func() any {
